@@ -261,13 +261,14 @@ theorem query_orientationWithin (nodes : List Node)
 /-! ### property theorems -/
 
 /-- **`Exons.Add`, checker = statement**: the driver reports no violation for one `Add` call
-    exactly when — rejected: the receiver's cells read as before and the returned slice is the old
-    one (`rejected_add_unchanged`); accepted: the returned exons are pairwise sorted and
-    non-overlapping on one location and are a permutation of the old exons plus the arguments
-    (`accepted_sorted_disjoint`). -/
-theorem add_checker_iff (accepted : Bool) (old afterOld res args : List Exon) :
-    addStatement accepted old afterOld res args = none ↔
-      (accepted = false → afterOld = old ∧ res = old) ∧
+    exactly when — rejected: the receiver's cells read as before, the returned slice is the old
+    one (`rejected_add_unchanged`) and a held earlier value of the variable (whose live data may be
+    the receiver's spare capacity) reads as before (`add_keeps_held_history`); accepted: the returned
+    exons are pairwise sorted and non-overlapping on one location and are a permutation of the old
+    exons plus the arguments (`accepted_sorted_disjoint`). -/
+theorem add_checker_iff (accepted : Bool) (old afterOld res args heldOld heldAfter : List Exon) :
+    addStatement accepted old afterOld res args heldOld heldAfter = none ↔
+      (accepted = false → afterOld = old ∧ res = old ∧ heldAfter = heldOld) ∧
       (accepted = true → Disjoint res ∧ res.Perm (old ++ args)) := by
   unfold addStatement addClauses
   rw [firstViolation_none]
@@ -278,15 +279,17 @@ theorem add_checker_iff (accepted : Bool) (old afterOld res args : List Exon) :
       reduceCtorEq, false_implies, forall_const]
     rw [sortedDisjoint_iff, List.isPerm_iff]
 
-/-- what is demanded of a transcript after an update that is not an accepted, dropped `Add` -/
+/-- what is demanded of a transcript after every operation (`S`, `R`: updates; `A`, `Z`: an `Add`
+    on (a re-slice of) `t.Exons()` whose result is dropped) -/
 structure TxOK (coding : Bool) (node : Node) (loc : Chain) (cdsStart cdsEnd : Int)
     (kind : String) (accepted : Bool) (args prev es : List Exon) (is : List Intron)
     (tstart tend tlen : Int) (utr : Option (Piece × Piece × Piece)) (sh : String) : Prop where
-  /-- accepted exons are sorted and pairwise non-overlapping, on the transcript, start at 0, and are
-      the given ones -/
+  /-- after an accepted operation the exons are sorted and pairwise non-overlapping, on the
+      transcript, start at 0, and are the given ones: the arguments of `SetExons`, or — after an
+      `Add` whose result is dropped — still the set accepted last -/
   accepted_exons : accepted = true →
     Disjoint es ∧ (∀ e ∈ es, e.loc = 1) ∧ startOf es = 0 ∧
-      es.Perm (if kind = "R" then prev ++ args else args)
+      es.Perm (if kind = "R" then prev ++ args else if kind = "A" ∨ kind = "Z" then prev else args)
   /-- exons and introns alternate, the introns are the gaps -/
   alternate : is.length + 1 = es.length ∨ (es = [] ∧ is = [])
   gaps : IntronsAreGaps es is
@@ -310,18 +313,32 @@ structure TxOK (coding : Bool) (node : Node) (loc : Chain) (cdsStart cdsEnd : In
                ∀ y ∈ utrOrder (orientProduct (node :: loc)) u5 cds u3, ¬ (y.1 ≤ p ∧ p < y.2))) ∧
       sh = s!"{u5.1},{u5.2},{u3.1},{u3.2}"
 
+theorem givenExons_eq (kind : String) (args prev : List Exon) :
+    givenExons kind args prev =
+      (if kind = "R" then prev ++ args else if kind = "A" ∨ kind = "Z" then prev else args) := by
+  unfold givenExons dropped
+  by_cases h1 : kind = "R"
+  · simp [h1]
+  · by_cases h2 : kind = "A"
+    · simp [h2]
+    · by_cases h3 : kind = "Z"
+      · simp [h3]
+      · simp [h1, h2, h3]
+
 /-- **transcripts, checker ⇒ statement**: when the driver reports no violation for a transcript
-    after an operation, then — rejected (any kind): the exon set shown is the previous one
-    (`rejected_update_unchanged_history`); and unless the operation was an accepted `Add` whose
-    result was dropped: everything in `TxOK` — the conclusions of `exons_introns_tile` and
-    `utr_cds_tile` with "every position of `[0, Len)` lies in exactly one piece" spelled out. -/
+    after an operation, then — rejected (any kind, `Z` = `t.Exons()[:j].Add(…)` included): the exon
+    set shown is the previous one (`rejected_update_unchanged_history`); and after every operation,
+    everything in `TxOK` — the conclusions of `exons_introns_tile` and `utr_cds_tile` with "every
+    position of `[0, Len)` lies in exactly one piece" spelled out, and after an accepted `Add` whose
+    result was dropped the exons shown are still the ones accepted last
+    (`dropped_add_unchanged_history`).  (Before the second wave nothing was demanded after an accepted
+    dropped `Add`; this statement implies the earlier one.) -/
 theorem tx_checker_sound (coding : Bool) (node : Node) (loc : Chain) (cdsStart cdsEnd : Int)
     (kind : String) (accepted : Bool) (args prev es : List Exon) (is : List Intron)
     (tstart tend tlen : Int) (utr : Option (Piece × Piece × Piece)) (sh : String)
     (h : txStatement coding node loc cdsStart cdsEnd kind accepted args prev es is tstart tend tlen utr sh = none) :
     (accepted = false → es = prev) ∧
-    (¬ (kind = "A" ∧ accepted = true) →
-      TxOK coding node loc cdsStart cdsEnd kind accepted args prev es is tstart tend tlen utr sh) := by
+      TxOK coding node loc cdsStart cdsEnd kind accepted args prev es is tstart tend tlen utr sh := by
   unfold txStatement txClauses at h
   rw [firstViolation_none] at h
   simp only [List.mem_cons, List.not_mem_nil, or_false, forall_eq_or_imp, forall_eq] at h
@@ -330,16 +347,7 @@ theorem tx_checker_sound (coding : Bool) (node : Node) (loc : Chain) (cdsStart c
   · intro ha
     subst ha
     simpa using c1
-  · intro hlive
-    have hl : (!(kind == "A" && accepted)) = true := by
-      cases hka : (kind == "A" && accepted) with
-      | false => rfl
-      | true =>
-        simp only [Bool.and_eq_true, beq_iff_eq] at hka
-        exact absurd hka hlive
-    rw [hl] at c2 c3 c4 c5 c6 c7 c8 c9 c10 c11 c12 c13 c14
-    simp only [Bool.true_and] at c2 c3 c4 c5 c6 c7 c8 c9 c10 c11 c12 c13 c14
-    refine ⟨?_, ?_, ?_, ?_, ?_, ?_⟩
+  · refine ⟨?_, ?_, ?_, ?_, ?_, ?_⟩
     · intro ha
       subst ha
       simp only [Bool.true_and, Bool.not_eq_false', decide_eq_false_iff_not, Decidable.not_not] at c2 c3 c4 c5
@@ -347,11 +355,8 @@ theorem tx_checker_sound (coding : Bool) (node : Node) (loc : Chain) (cdsStart c
       · intro e he
         have := List.all_eq_true.mp c3 e he
         simpa using this
-      · have := List.isPerm_iff.mp c5
-        by_cases hk : kind = "R"
-        · simpa [hk] using this
-        · have hk' : (kind == "R") = false := by simpa using hk
-          simpa [hk, hk'] using this
+      · rw [← givenExons_eq]
+        exact List.isPerm_iff.mp c5
     · exact (alternate_iff es is).mp (by simpa using c6)
     · exact (intronsFit_iff es is).mp (by simpa using c7)
     · intro hnn
@@ -377,6 +382,23 @@ theorem tx_checker_sound (coding : Bool) (node : Node) (loc : Chain) (cdsStart c
         simp only [Option.isSome_some, Option.getD_some, Bool.true_and, decide_eq_true h1,
           decide_eq_true h2, decide_eq_true h3, Bool.not_eq_false'] at c13
         exact ⟨c13, tiles_partition 0 tlen _ c13⟩
+
+/-- **the location clause of `intronsFit` demands "the introns lie on the transcript", nothing
+    more**: when all exons are on the transcript `tid` (which `txStatement` demands of accepted
+    exons), "intron `i` is on the location of exon `i+1`" is "intron `i` is on the transcript" — a
+    piece that is to tile *the transcript* has to be an interval of the transcript's coordinates. -/
+theorem introns_gaps_on_transcript (tid : Nat) (es : List Exon) (is : List Intron)
+    (hes : ∀ e ∈ es, e.loc = tid) :
+    IntronsAreGaps es is ↔
+      ∀ i (h1 : i < is.length) (h2 : i + 1 < es.length),
+        is[i].start = es[i].stop ∧ is[i].stop = es[i + 1].start ∧ is[i].loc = tid := by
+  constructor
+  · intro h i h1 h2
+    obtain ⟨a, b, c⟩ := h i h1 h2
+    exact ⟨a, b, c.trans (hes _ (List.getElem_mem h2))⟩
+  · intro h i h1 h2
+    obtain ⟨a, b, c⟩ := h i h1 h2
+    exact ⟨a, b, c.trans (hes _ (List.getElem_mem h2)).symm⟩
 
 /-- **`Gene.SetFeatures`, checker ⇒ statement**: rejected — the gene's length and feature list are
     as before (`rejected_setFeatures_unchanged`); accepted — the features shown are the given ones,
